@@ -657,6 +657,35 @@ def runHistory (E : Env) (cfg : Cfg) : St → List Call → St × List (List Str
     let rest := runHistory E cfg r.1 cs
     (rest.1, r.2 :: rest.2)
 
+/-! ## `Cleaner.clean_file` (cleaner/__init__.py 163-199): read, clean, replace the WHOLE content -/
+
+/-- `fh.readlines()`: the text cut behind every `'\n'`, terminators kept -/
+def readlinesGo : Str → Str → List Str
+  | [], [] => []
+  | [], cur => [cur.reverse]
+  | c :: cs, cur => if c = '\n' then (c :: cur).reverse :: readlinesGo cs [] else readlinesGo cs (c :: cur)
+def readlines (txt : Str) : List Str := readlinesGo txt []
+
+/-- a path as `clean_file` sees it: nothing there, a symbolic link (left alone), or a regular file with its text -/
+inductive FileSt
+  | absent
+  | link
+  | file (txt : Str)
+deriving DecidableEq, Repr
+
+/-- `clean_file(path, …)` (not the `netstat_-neopa` name): an empty file is left alone, a file whose cleaning leaves
+nothing is REMOVED, otherwise the file is opened with `'wb'` — truncated — and the cleaned lines are written one
+after the other: afterwards it holds exactly their concatenation -/
+def cleanFile (E : Env) (cfg : Cfg) (st : St) (call : Call) : FileSt → St × FileSt
+  | .absent => (st, .absent)
+  | .link => (st, .link)
+  | .file txt =>
+    let raw := readlines txt
+    let r := cleanContent E cfg st { call with lines := raw }
+    if raw.isEmpty then (r.1, .file txt)
+    else if r.2.isEmpty then (r.1, .absent)
+    else (r.1, .file r.2.flatten)
+
 /-! ## `mapping()`: (original, obfuscated) pairs in database order -/
 
 def ipMapping (st : St) : List (Str × Str) := st.ipDb.map (fun kv => (int2ip kv.2, int2ip kv.1))
